@@ -488,6 +488,13 @@ CAMPAIGNS['C10'].append(camp(
     mode='oserror-sweep', nontrivial=nt_rollback_restored, chunk=6, follow=1,
     torn=False, errnos=['ENAMETOOLONG', 'ENOSPC', 'EACCES'],
     post='tag_all:C10', sweep_max={'quick': 12, 'thorough': None}))
+CAMPAIGNS['C14'].append(camp(
+    'c14-swaps-sweep', 'C14', dict(SWAP_HEAVY, p_catch=0.9),
+    SWAP_RULE + ' (make_room: files moved out of a stale directory, rmdir; '
+    'a directory replacing a stale output file): OSError at every pre-commit '
+    'mutating call index, also followed by a root failure',
+    mode='oserror-sweep', nontrivial=nt_rollback_restored, chunk=6, follow=1,
+    crash_end=True, sweep_max={'quick': 12, 'thorough': None}))
 WIDE_RULE = ('wide builds: one statement builds 130-260 outputs (over '
              'foreign files or previous outputs), so that more than 128 files '
              'are moved aside in one build, then the build fails and is '
